@@ -179,6 +179,12 @@ func.func @f(%s : {ts}, %d : {td}) {{
         SNAXCopyToDMA().apply(ctx, m)
         f = [g for g in irsym.module_funcs(m) if g.sym_name.data == "f"][0]
         left = [o for o in m.walk() if o.name == "memref.copy"]
+        # two tiled layouts with different tile sizes: the tile-by-tile loop nest cannot express the copy; leaving the
+        # memref.copy alone (no DMA call emitted) is a refusal, not a wrong copy
+        differently_tiled = sdesc[0] == "tsl" and ddesc[0] == "tsl" and sdesc[1] != ddesc[1]
+        if left and differently_tiled and not [o for o in m.walk() if o.name == "func.call"]:
+            E.oblige("explored", True)
+            return
         E.oblige("lowered:no_copy_left", z3.BoolVal(not left))
         if left:
             return
@@ -314,6 +320,11 @@ def run(chk):
     cases.append(((4, 4), 8, ("tsl", [[2, 2], [2, 2]], [[8, 2], [4, 1]], 0), ("tsl", [[2, 2], [2, 2]], [[1, 4], [2, 8]], 0)))
     cases.append(((4, 8), 8, ("tsl", [[4], [2, 2, 2]], [[8], [4, 2, 1]], 0), ("tsl", [[4], [2, 2, 2]], [[1], [4, 8, 16]], 0)))
     # dynamic shapes
+    # two tiled layouts of the same shape with DIFFERENT tile sizes
+    for elw in (8, 32):
+        cases.append(((8,), elw, ("tsl", [[2, 4]], [[4, 1]], 0), ("tsl", [[4, 2]], [[16, 1]], 0)))
+        cases.append(((8, 8), elw, ("tsl", [[2, 4], [2, 4]], [[32, 4], [16, 1]], 0), ("tsl", [[4, 2], [8]], [[16, 8], [1]], 0)))
+        cases.append(((16,), elw, ("tsl", [[2, 8]], [[8, 1]], 0), ("tsl", [[4, 4]], [[8, 1]], 0)))
     # sub-byte elements with strides only known at run time
     for elw in (1, 4):
         cases.append(((None, 4), elw, ("strided", [None, 1], 0), ("id",)))
